@@ -70,6 +70,7 @@ func (check) Assumptions() []string {
 type optSet struct {
 	pol    model.Policy
 	varexp bool
+	resolv bool // with VarExp: a Resolve option that knows the name "ext"
 	none   bool // no options at all (collector only)
 	swap   bool // policy option before PathSep
 }
@@ -85,7 +86,17 @@ func (o optSet) name() string {
 	if o.varexp {
 		s += "+varexp"
 	}
+	if o.resolv {
+		s += "+resolve"
+	}
 	return s
+}
+
+func resolver(name string) (string, parse.Config, error) {
+	if name == "ext" {
+		return "E1", parse.DefaultConfig, nil
+	}
+	return "", parse.DefaultConfig, ucfg.ErrMissing
 }
 
 func polOpt(p model.Policy) ucfg.Option {
@@ -118,6 +129,9 @@ func (o optSet) opts() []ucfg.Option {
 	if o.varexp {
 		l = append(l, ucfg.VarExp)
 	}
+	if o.resolv {
+		l = append(l, ucfg.Resolve(resolver))
+	}
 	return l
 }
 
@@ -127,6 +141,9 @@ func (o optSet) read() []ucfg.Option {
 	if o.varexp {
 		l = append(l, ucfg.VarExp)
 	}
+	if o.resolv {
+		l = append(l, ucfg.Resolve(resolver))
+	}
 	return l
 }
 
@@ -134,6 +151,11 @@ func genOptSet(r *rand.Rand, allowVarExp bool) optSet {
 	o := optSet{pol: model.Policy(r.Intn(5)), swap: r.Intn(4) == 0}
 	if allowVarExp && r.Intn(16) == 0 {
 		o.varexp = true
+		o.resolv = r.Intn(2) == 0
+		if o.pol == model.PReplace {
+			// replacing the top level drops the initial keys the references point to
+			o.pol = model.PDefault
+		}
 	}
 	return o
 }
@@ -155,13 +177,18 @@ var (
 	nonFinite  = []string{"nan", "NaN", "inf", "-Inf", "Infinity"}
 	sqTexts    = []string{"'abc'", "'a,b'", "'it\"s'", "'[x]'", "'{y:1}'", "''", "'a\\nb'", "' sp '", "'1'", "'true'", "'null'"}
 	dqTexts    = []string{`"abc"`, `"a,b"`, `"q\"q"`, `"é"`, `"tab\t"`, `""`, `"[x]"`, `"a'b"`, `"1"`, `"true"`, `" sp "`, `"{y: 1}"`}
-	refTexts   = []string{"${q}", "${r.s}", "${r.t}", `"x ${q} y"`, "'${r.s}'", "${q}-${r.s}", "${r}"}
+	refTexts   = []string{"${q}", "${r.s}", "${r.t}", `"x ${q} y"`, "'${r.s}'", "${q}-${r.s}"} // no object-valued references: merging into one is C10/C08 territory
 	objKeys    = []string{"x", "y", "a", "b", "k"}
-	oddObjKeys = []string{`"k k"`, `'q'`, "x.y", "0", `""`}
+	oddObjKeys = []string{`"k k"`, `'q'`, "z.y", "0", `""`} // z is never a plain key: no dotted/nested twin in one map (C05/C09)
 )
 
-func genScalar(r *rand.Rand, top bool, varexp bool) (string, string) {
-	if varexp && r.Intn(3) == 0 {
+// varexp: 0 = off, 1 = references to the initial config, 2 = also to the
+// name only the Resolve option knows
+func genScalar(r *rand.Rand, top bool, varexp int) (string, string) {
+	if varexp > 0 && r.Intn(3) == 0 {
+		if varexp > 1 && r.Intn(3) == 0 {
+			return pick(r, []string{"${ext}", `"x-${ext}"`, "${ext}${q}"}), "reference-resolver"
+		}
 		return pick(r, refTexts), "reference"
 	}
 	switch k := r.Intn(100); {
@@ -197,7 +224,7 @@ func pad(r *rand.Rand) string {
 }
 
 // genNested renders a bracketed list or an object.
-func genNested(r *rand.Rand, depth int, varexp bool) (string, string) {
+func genNested(r *rand.Rand, depth int, varexp int) (string, string) {
 	elem := func(inObj bool) string {
 		if depth > 0 && r.Intn(4) == 0 {
 			s, _ := genNested(r, depth-1, varexp)
@@ -206,7 +233,7 @@ func genNested(r *rand.Rand, depth int, varexp bool) (string, string) {
 		s, tag := genScalar(r, false, varexp)
 		// a bare word must not be followed by padding that matters; quoted and
 		// nested member values followed by blanks are C17 territory: no padding
-		if tag == "squote" || tag == "dquote" || tag == "reference" {
+		if tag == "squote" || tag == "dquote" || strings.HasPrefix(tag, "reference") {
 			return s
 		}
 		return s + pad(r)
@@ -251,7 +278,7 @@ func genNested(r *rand.Rand, depth int, varexp bool) (string, string) {
 }
 
 // genValue renders a non-empty value text.
-func genValue(r *rand.Rand, varexp bool) (string, string) {
+func genValue(r *rand.Rand, varexp int) (string, string) {
 	var s, tag string
 	switch k := r.Intn(100); {
 	case k < 45:
@@ -300,7 +327,7 @@ func endsOpen(v string) bool {
 	return strings.HasSuffix(t, "[") || strings.HasSuffix(t, "{") || strings.HasSuffix(t, ",")
 }
 
-func genMalformedValue(r *rand.Rand, varexp bool) (string, string) {
+func genMalformedValue(r *rand.Rand, varexp int) (string, string) {
 	if r.Intn(100) == 0 {
 		return pick(r, crashTable), "crash-shape"
 	}
@@ -330,7 +357,7 @@ type kvArg struct {
 	syntax string
 }
 
-func genArgs(r *rand.Rand, varexp bool) []kvArg {
+func genArgs(r *rand.Rand, varexp int) []kvArg {
 	n := 1 + r.Intn(10)
 	failAt := -1
 	if r.Intn(100) < 40 {
@@ -682,12 +709,17 @@ func (mo *monitor) step(i int, arg, kind string, ret error, retIdentity bool, cf
 	st.refresh()
 	res.Eval(2)
 	if gerr != nil || st.canonErr != nil {
-		if (gerr != nil) != (st.canonErr != nil) {
-			res.Violate("accumulation-mismatch:readability", "after argument %d %q: flag config read error %v, reference read error %v; %s", i, arg, gerr, st.canonErr, mo.desc())
-			mo.diverged = true
-		} else {
+		mo.unread = true
+		switch {
+		case gerr != nil && st.canonErr != nil:
 			res.Ev("unreadable_both", 1)
-			mo.unread = true
+		case st.os.pol != model.PDefault && (gerr != nil) == (st.canonNoErr != nil) && (gerr != nil || got == st.canonNo):
+			mo.diverged = true
+			res.Violate("collector-drops-options:merge-policy", "policy %v ignored while accumulating: after argument %d %q: flag config reads as %s (error %v), the reference as %s (error %v), the twin merged without options as %s (error %v); %s",
+				st.os.pol, i, arg, got, gerr, st.canon, st.canonErr, st.canonNo, st.canonNoErr, mo.desc())
+		default:
+			mo.diverged = true
+			res.Violate("accumulation-mismatch:readability", "after argument %d %q: flag config read error %v, reference read error %v; %s", i, arg, gerr, st.canonErr, mo.desc())
 		}
 		return
 	}
@@ -770,7 +802,10 @@ func (mo *monitor) checkString(fv *flag.FlagValue, cfg *ucfg.Config) {
 	err2 := cfg.Unpack(&m2)
 	known := false
 	if err2 != nil {
-		known = s == err2.Error() || (mo.firstObs != nil && s == mo.firstObs.Error())
+		// reading without the options fails and String() printed the error the
+		// collector now reports (which key is blamed depends on map order)
+		e := fv.Error()
+		known = e != nil && s == e.Error()
 	} else if derr == nil && got == model.CanonIfc(m2) {
 		known = true
 	}
@@ -823,7 +858,14 @@ func runKV(res *harness.R, r *rand.Rand, idx int, verbose bool) {
 		autoBool = true // ConfigVar always enables it
 	}
 	initTree := genInit(r, os)
-	args := genArgs(r, os.varexp)
+	ve := 0
+	if os.varexp {
+		ve = 1
+		if os.resolv {
+			ve = 2
+		}
+	}
+	args := genArgs(r, ve)
 	mode := "kv"
 	if viaFlagSet {
 		mode = "kv-flagset"
@@ -1037,11 +1079,28 @@ type fileArg struct {
 
 func tmpBase() string { return filepath.Join(harness.Root, "work", "C19tmp") }
 
-func genDictChain(r *rand.Rand, n int, dotted bool) []*model.Node {
-	keys := []string{"a", "b", "c"}
-	if dotted {
-		keys = []string{"a", "b", "a.b", "c"}
+// flatten spells the members of some top-level dictionaries as dotted keys
+// ({"a":{"b":1}} -> {"a.b":1}); the dictionary itself disappears from the map,
+// so one setting is never spelled dotted and nested in the same map (C05/C09).
+func flatten(r *rand.Rand, t *model.Node) (map[string]interface{}, bool) {
+	out := map[string]interface{}{}
+	did := false
+	for _, k := range t.SortedKeys() {
+		v := t.D[k]
+		if v.IsSub() && len(v.D) > 0 && !v.HasA && len(v.A) == 0 && r.Intn(2) == 0 {
+			for _, k2 := range v.SortedKeys() {
+				out[k+"."+k2] = v.D[k2].ToGo()
+			}
+			did = true
+			continue
+		}
+		out[k] = v.ToGo()
 	}
+	return out, did
+}
+
+func genDictChain(r *rand.Rand, n int) []*model.Node {
+	keys := []string{"a", "b", "c"}
 	o := gen.TreeOpts{Depth: 2, Keys: keys, Prims: simplePrims}
 	out := []*model.Node{gen.TopDict(r, o, 2)}
 	for len(out) < n {
@@ -1069,8 +1128,8 @@ func runFiles(res *harness.R, r *rand.Rand, idx int, verbose bool) {
 		initTree = gen.TopDict(r, gen.TreeOpts{Depth: 2, Prims: simplePrims}, 2)
 	}
 	n := 1 + r.Intn(5)
-	dotted := r.Intn(10) == 0
-	trees := genDictChain(r, n, dotted)
+	dotted := r.Intn(4) == 0
+	trees := genDictChain(r, n)
 	failAt := -1
 	if r.Intn(100) < 40 {
 		failAt = r.Intn(n)
@@ -1080,10 +1139,17 @@ func runFiles(res *harness.R, r *rand.Rand, idx int, verbose bool) {
 		ext := pick(r, exts)
 		f := fileArg{name: fmt.Sprintf("f%d%s", i, ext), write: true, intent: "document", tree: t}
 		var b []byte
+		doc := t.ToGo()
+		if dotted {
+			if m, did := flatten(r, t); did {
+				doc = m
+				f.intent = "document-dotted"
+			}
+		}
 		if r.Intn(3) == 0 {
-			b, _ = json.MarshalIndent(t.ToGo(), "", "  ")
+			b, _ = json.MarshalIndent(doc, "", "  ")
 		} else {
-			b, _ = json.Marshal(t.ToGo())
+			b, _ = json.Marshal(doc)
 		}
 		f.content = string(b)
 		if i == failAt || (failAt >= 0 && i > failAt && r.Intn(4) == 0) {
